@@ -95,7 +95,7 @@ fn open_case(cfg: Cfg, backend: MemBackend, allow_oob_reads: bool, abort_at: Opt
     Ok(outcome)
 }
 
-pub fn run(tier: &str) -> i32 {
+pub fn run(tier: &str, s10_selftest: Result<(), String>) -> i32 {
     let quick = tier != "thorough";
     let mut rep = Report::new("C20", tier, "model_checking");
     let mut acc = Acc::default();
@@ -370,7 +370,7 @@ pub fn run(tier: &str) -> i32 {
             Err(e) => rep.machinery_errors.push(e),
         }
     }
-    rep.cov("rule", json!("the monitor (bounds of every read/write against the current length, no call after close, close exactly once per backend, read-only means len/read/close only) is evaluated on every dedicated case: every bit of the magic number flipped, wrong page size, every byte of the geometry/layout fields altered three ways, files truncated to every listed length, repair aborted at each callback invocation, an I/O error at EVERY call index of open on a clean and on a crash image in both failure modes, read-only opens of a clean and a dirty image through the real ReadOnlyDatabase path, a Database dropped while a write transaction and a reader are alive (6 endings), plus every operation sequence of depth 2 (thorough: 4) of the ownership profile; distinct = distinct (family, outcome) classes"));
+    rep.cov("rule", json!("the monitor (bounds of every read/write against the current length, no call after close, close exactly once per backend, read-only means len/read/close only) is evaluated on every dedicated case: every bit of the magic number flipped, wrong page size, every byte of the geometry/layout fields altered three ways, files truncated to every listed length, repair aborted at each callback invocation, an I/O error at EVERY call index of open on a clean and on a crash image in both failure modes, read-only opens of a clean and a dirty image through the real ReadOnlyDatabase path, a Database dropped while a write transaction and a reader are alive (6 endings), plus every operation sequence of depth 2 (thorough: 4) of the ownership profile, plus scenario S10 under the controlled scheduler (drop(Database) on one thread, a live read transaction reading on another, backend calls are scheduling points; all schedules with at most 1 (thorough: 2) preemptions); distinct = distinct (family, outcome) classes"));
     rep.cov("dedicated_cases", json!(acc.cases));
     rep.add_count("evaluations", acc.cases);
     rep.add_count("states", acc.cases);
@@ -395,5 +395,17 @@ pub fn run(tier: &str) -> i32 {
             json!({"engine": "contractx", "case": name}),
         );
     }
+    // (10) "handle drops in any order on any threads": drop(Database) on one thread while a read
+    // transaction that began earlier reads on another, under the controlled scheduler of C03 with
+    // every backend call as an additional scheduling point; all schedules with <= k preemptions
+    if let Err(e) = s10_selftest {
+        rep.machinery_errors.push(format!("S10: determinism self-test: {e}"));
+    }
+    let mut plans = vec![crate::schedrun::Plan { scn: "S10", cache: 2, bound: 1, reduced: true, cap: 60_000 }];
+    if !quick {
+        plans.push(crate::schedrun::Plan { scn: "S10", cache: 1, bound: 1, reduced: true, cap: 60_000 });
+        plans.push(crate::schedrun::Plan { scn: "S10", cache: 2, bound: 2, reduced: true, cap: 400_000 });
+    }
+    crate::schedrun::run_plans(&mut rep, plans);
     rep.finish()
 }
